@@ -473,8 +473,9 @@ def impl_coverage(run):
     raw, prof = os.path.join(run.dir, "cov.profraw"), os.path.join(run.dir, "cov.profdata")
     sh("LLVM_PROFILE_FILE=%s %s run %s %s/cov.out" % (raw, binp, inp, run.dir), 3000)
     sh("%s/llvm-profdata merge -sparse %s -o %s" % (tools, raw, prof), 600)
-    rc, rep = sh("%s/llvm-cov report %s -instr-profile=%s %s/src/semantic.rs %s/src/types/block_state.rs"
-                 % (tools, binp, prof, REPO, REPO), 600)
+    srcs = " ".join(x for x in (files_under(os.path.join(REPO, "src", "semantic"), (".rs",)) if os.path.isdir(os.path.join(REPO, "src", "semantic"))
+                               else [os.path.join(REPO, "src", "semantic.rs")]) + [os.path.join(REPO, "src", "types", "block_state.rs")])
+    rc, rep = sh("%s/llvm-cov report %s -instr-profile=%s %s" % (tools, binp, prof, srcs), 600)
     res = {}
     for line in rep.splitlines():
         parts = line.split()
